@@ -16,6 +16,7 @@ import traceback
 
 sys.path.insert(0, os.path.dirname(os.path.abspath(__file__)))
 import common as C  # noqa: E402
+import mech  # noqa: E402
 from props import PROPS  # noqa: E402
 
 
@@ -171,6 +172,26 @@ def run_property(prop, tier, replay=None):
     events = 0
     scenarios = 0
     drift = []
+    # code -> mechanism conformance (informational: drift of the specification, never a verdict), in the background
+    mech_out = []
+
+    def mech_work():
+        for fam, trace, rep in runs:
+            if fam["family"] in mech.FAMILIES and not fam.get("no_mech"):
+                try:
+                    r = mech.conform(fam["family"], trace, wd, max_parallel=6)
+                    r["family"] = fam["family"]
+                    r["tag"] = fam.get("tag", "run")
+                    idx = {e["scn"]: e for e in rep.get("index", [])}
+                    for d in r["diverged"]:
+                        d["id"] = idx.get(d["scn"], {}).get("id")
+                    mech_out.append(r)
+                except C.ToolError as ex:
+                    mech_out.append(dict(family=fam["family"], tag=fam.get("tag", "run"), error=str(ex), scenarios=0,
+                                         conforming=0, diverged=[]))
+
+    mech_thread = threading.Thread(target=mech_work)
+    mech_thread.start()
     for fam, trace, rep in runs:
         tcfg = os.path.join(wd, "%s-%s.cfg" % (fam["trace_module"], prop))
         C.write_cfg(tcfg, "TSpec", fam.get("trace_constants", {}), (P["verdict"], "Accepted"))
@@ -186,6 +207,7 @@ def run_property(prop, tier, replay=None):
             v["entry"] = index.get(v["scn"], {})
             all_viol.append(v)
     mc_thread.join()
+    mech_thread.join()
 
     # ---- verdict
     out_lines = []
@@ -194,7 +216,7 @@ def run_property(prop, tier, replay=None):
     for v in all_viol:
         matched = [s for s in v["sigs"] if s in known]
         # known only if every reason reported with the violation is a listed signature
-        if matched and len(matched) == len(v["sigs"]):
+        if matched and len(matched) == len(v["sigs"]) and not v.get("unsigned"):
             known_seen.setdefault(matched[0], v)
             continue
         n_viol += 1
@@ -263,6 +285,8 @@ def run_property(prop, tier, replay=None):
         drift=drift[:10],
         drift_count=len(drift),
         known_findings_observed=sorted(known_seen.keys()),
+        mechanism_conformance=[dict(family=m["family"], tag=m["tag"], scenarios=m["scenarios"], conforming=m["conforming"],
+                                    error=m.get("error"), first_divergences=m["diverged"][:5]) for m in mech_out],
         notes=notes,
     )
     wall = time.time() - t_start
@@ -271,6 +295,10 @@ def run_property(prop, tier, replay=None):
     for d in drift[:5]:
         print("DRIFT property=%s family=%s schedule=%s step=%s" % (
             prop, d.get("family"), d.get("id"), d.get("at", {}).get("step")))
+    for m in mech_out:
+        for d in m["diverged"][:3]:
+            print("MECH-DRIFT property=%s family=%s schedule=%s event=%s what=%s" % (
+                prop, m["family"], d.get("id"), d.get("line"), d.get("what").replace(" ", "_")))
     for l in out_lines:
         print(l)
     if tool_err:
